@@ -280,6 +280,16 @@ func (m *multi) returnResults(msg proto.Message, err error) {
 
 	mr := msg.(*pb.MultiResponse)
 
+	// As soon as a call has got its result its owner may retry it and set
+	// a new region on it: remember the region each call was sent for
+	// before answering any of them.
+	callRegions := make([]hrpc.RegionInfo, len(m.calls))
+	for j, c := range m.calls {
+		if c != nil {
+			callRegions[j] = c.Region()
+		}
+	}
+
 	// Here we can assume that everything has been deserialized correctly.
 	// Dispatch results to appropriate calls.
 	for i, rar := range mr.GetRegionActionResult() {
@@ -289,11 +299,11 @@ func (m *multi) returnResults(msg proto.Message, err error) {
 			reg := m.regions[i]
 
 			err := exceptionToError(*e.Name, string(e.Value))
-			for _, c := range m.calls {
+			for j, c := range m.calls {
 				if c == nil {
 					continue
 				}
-				if c.Region() == reg {
+				if callRegions[j] == reg {
 					c.ResultChan() <- hrpc.RPCResult{Error: err}
 				}
 			}
